@@ -96,6 +96,16 @@ def run_in_child(root, fn, target=None, variant="before"):
                 elif state["n"] == target:
                     if variant == "before":
                         os._exit(98)
+                    if variant == "after":
+                        # die as soon as this very call has returned: its effect is on disk, nothing that Python
+                        # still holds in user-space buffers (a file not yet closed) is
+                        def _die(frame, ev, arg):
+                            if frame.f_code is hook.__code__:
+                                return  # the hook's own return; the audited call has not run yet
+                            os._exit(98)  # first event after the audited call: nothing else has run since
+
+                        sys.setprofile(_die)
+                        return
                     if event == "open":
                         state["armed"] = os.path.abspath(p)
                     else:
